@@ -197,6 +197,22 @@ def judge(spec, acc, fam, via_load=False, nontrivial=None):
                  f"reference says INVALID ({reason}) but tree_sequence() succeeded", case)
     elif ver == V.INVALID and not isinstance(err, (tskit.LibraryError, ValueError, TypeError, OverflowError)):
         acc.fail(fam + ":wrong-exception", repr(err), case)
+    if spec.get("index") is not None and build_err is None:
+        # an explicit build_index() replaces whatever index was there (stale, user-supplied): afterwards the
+        # verdict is that of the rows alone
+        ver2, reason2 = V.verdict({k: v for k, v in spec.items() if k != "index"})
+        tc2 = tc.copy()
+        err2 = None
+        try:
+            tc2.build_index()
+            tc2.tree_sequence()
+        except Exception as e:  # noqa
+            err2 = e
+        if ver2 == V.VALID and err2 is not None:
+            acc.fail(fam + ":valid-rejected-after-build_index", f"rows are VALID; after an explicit build_index() "
+                     f"tree_sequence() raised {err2!r}", case)
+        elif ver2 == V.INVALID and err2 is None:
+            acc.fail(fam + ":invalid-accepted-after-build_index", f"INVALID ({reason2}) but accepted after build_index()", case)
     if via_load:
         import os
 
